@@ -16,7 +16,7 @@ from typing import Iterable, List, Optional, TextIO, Hashable, Union, Dict, Any
 
 from Bio import SeqIO
 from Bio.Seq import Seq
-from Bio.SeqFeature import SeqFeature
+from Bio.SeqFeature import CompoundLocation, SeqFeature
 from Bio.SeqRecord import SeqRecord
 from inscripta.biocantor.gene import (
     CDSFrame,
@@ -39,6 +39,15 @@ from inscripta.biocantor.io.genbank.constants import (
 )
 from inscripta.biocantor.io.genbank.exc import GenBankExportError
 from inscripta.biocantor.location.strand import Strand
+
+
+def _to_biopython_location(location):
+    """BioPython keeps the parts of a minus-strand ``CompoundLocation`` in 5'->3' order and writes them reversed
+    inside ``complement(join(...))``; BioCantor blocks are always in ascending order."""
+    biopython_location = location.to_biopython()
+    if location.strand == Strand.MINUS and len(biopython_location.parts) > 1:
+        return CompoundLocation(biopython_location.parts[::-1])
+    return biopython_location
 
 
 def collection_to_genbank(
@@ -241,7 +250,7 @@ def transcripts_to_feature(
         ``SeqFeature``s, one for each transcript and then one for each CDS of the transcript, if it exists.
     """
     for transcript in transcripts:
-        location = transcript.chunk_relative_location.to_biopython()
+        location = _to_biopython_location(transcript.chunk_relative_location)
 
         transcript_qualifiers = {key: list(vals) for key, vals in transcript.export_qualifiers().items()}
         if gene_symbol is not None:
@@ -310,7 +319,7 @@ def add_cds_feature(
     Returns:
         ``SeqFeature`` for the CDS of this transcript.
     """
-    location = transcript.cds.chunk_relative_location.to_biopython()
+    location = _to_biopython_location(transcript.cds.chunk_relative_location)
     feature = SeqFeature(location, type=GeneIntervalFeatures.CDS.value, strand=strand.value)
     feature.qualifiers = transcript_qualifiers
 
@@ -361,7 +370,7 @@ def feature_intervals_to_features(
         A ``SeqFeature``s for each feature.
     """
     for feature in features:
-        location = feature._location.to_biopython()
+        location = _to_biopython_location(feature._location)
 
         feature_qualifiers = {key: list(vals) for key, vals in feature.export_qualifiers().items()}
         if feature_name:
